@@ -19,6 +19,12 @@ as the queue is drained) — the timer-driven variant only changes *when* a flus
 
 Result classes are coarse on purpose: every `region.ServerError` (including `ErrClientClosed`) is
 `connErr`.
+
+The reader fails the connection on: a read error, a header that does not decode, an id nobody
+waits for, a failing `SetReadDeadline`, and a response in which the server says that it is not in
+service (an exception of a `ServerError` class) — in the response header, or, once every call of
+the multi has been given its own result, anywhere inside a decoded multi-response (for a region
+or for one action; `serverErrorIn` in `receive`): `Frame.fatal`.
 -/
 namespace GV.Conn
 
@@ -68,10 +74,19 @@ inductive Frame where
   | result              -- header ok, response decodes
   | exception (r : Res) -- header carries an exception of that class
   | perCall (rs : List (Nat × Res))  -- a multi-response: one result class per call; calls it does
-                        -- not mention get RetryableError ("no result for action")
+                        -- not mention get RetryableError ("no result for action"); a `connErr`
+                        -- among the results fails the connection after the delivery (`Frame.fatal`)
   | undecodable         -- response part / cellblocks do not decode (→ RetryableError to the call)
   | badHeader           -- header does not decode or has no call id (→ connection failure)
   deriving Repr, DecidableEq
+
+/-- A frame after whose own delivery the reader fails the connection: the server says that it is
+not in service (a `ServerError`-class exception, `connErr`) — in the response header, or inside a
+decoded multi-response, for a whole region or for a single action (`serverErrorIn` in `receive`). -/
+def Frame.fatal : Frame → Bool
+  | .exception .connErr => true
+  | .perCall rs => rs.any (fun p => p.2 == .connErr)
+  | _ => false
 
 inductive Reader where
   | reading                               -- inside conn.Read
@@ -262,7 +277,11 @@ def finishFrame (s : St) (id : Nat) (it : Item) (f : Frame) : St :=
   | .perCall rs =>
     let s1 : St := { s with delivered := s.delivered ++ it.calls.map (fun c =>
       Dlv.mk c (((rs.find? (·.1 == c)).map (·.2)).getD .retryable) (some id)) }
-    { s1 with reader := readerNext s1 }
+    -- every call of the multi has its own result; if one of the exceptions in the response (for a
+    -- region or for an action) is a ServerError, `receive` then returns it and the connection is
+    -- failed exactly as for such an exception in the header
+    if f.fatal then { failConn { s1 with reader := .exited } with reader := .exited }
+    else { s1 with reader := readerNext s1 }
   | .exception .connErr =>
     -- the caller gets the ServerError and the connection is failed
     let s1 := deliverItem s it .connErr (some id)
